@@ -21,7 +21,7 @@ import re
 
 from .. import panic as P
 from ..mir import const_int, op_place
-from .panic_common import run_panic
+from .panic_common import run_loops, run_panic
 
 TECHNIQUE = "static analysis: reachability of panic-capable MIR constructs over the monomorphic call graph from every asset/archive entry point, with dataflow discharges (constant/masked/induction-variable index, dominating length guard, binrw count facts, infallible unwrap), recursion SCCs, typestate check of RefCell guards, acquire/release pairing of the inflate stream, and an extent analysis of the texture block decoders"
 TRUSTED = [
@@ -302,15 +302,19 @@ P.REQUIRES["refcell-discipline"] = requires_refcell
 
 # ------------------------------------------------------------------------------------------------ run
 
+LOOPS_FLOOR = 70  # natural loops counted on the pinned tree: 91; the floor leaves room for loops rewritten as iterator chains
+
+
 def run(ctx):
     prog = ctx.prog
     ctx.decided("no undischarged panic/abort/overflow/alloc/leak construct reachable from the asset and archive entry points")
     ctx.decided("no recursion reachable from them")
+    ctx.decided("every reachable loop carries a structural termination argument: finite iterator, stepped counter tested on exit, stepped bounds-checked index, input-consuming read (LOOPS)")
     ctx.decided("binrw up-front reservations driven by wide count fields")
     ctx.decided("inflateEnd on every exit after a successful init")
     ctx.decided("texture block decoders stay inside the guarded input")
     ctx.decided("RefCell guards never overlap a conflicting borrow")
-    ctx.not_decided("termination of data-driven loops; Add/Mul overflow asserts; memory retained by pushes in loops; soundness of unsafe blocks (to_u8_slice, libz FFI)")
+    ctx.not_decided("Add/Mul overflow asserts; memory retained by pushes in loops; soundness of unsafe blocks (to_u8_slice, libz FFI)")
 
     fe, entries = entry_points(prog)
     ctx.floor("SHAPE", "public from_existing constructors outside the C17 modules", len(fe), 28)
@@ -354,6 +358,8 @@ def run(ctx):
         ctx.ob("RECURSION", "|".join(comp)[:200], False, f"recursion reachable from untrusted input (stack depth is input-controlled): {comp}", None, None)
     if not sccs:
         ctx.ob("RECURSION", "none", True, "no recursive cycle among the reachable local functions", None, None)
+
+    run_loops(ctx, defs, floor=LOOPS_FLOOR)
 
     from .wirealloc import wire_alloc
 
